@@ -428,6 +428,14 @@ class Ctx:
         except AnalysisError as e:
             self.errors.append("%s: %s" % (self._rule or getattr(fn, "__name__", "?"), e))
             return None
+        except Exception as e:        # a rule that trips over a construct it never met: no verdict from this rule, the others still run
+            if os.environ.get("TYVERIF_RAISE"):
+                raise
+            import traceback as _tb
+            last = _tb.extract_tb(e.__traceback__)[-1]
+            self.errors.append("%s: internal error of the rule (%s: %s at %s:%d) - no verdict from it" % (
+                self._rule or getattr(fn, "__name__", "?"), type(e).__name__, str(e)[:120], os.path.basename(last.filename), last.lineno))
+            return None
 
     def expect_instances(self, rid, n):
         got = self.rules.get(rid, {}).get("instances", 0)
